@@ -167,9 +167,9 @@ func check(it *proto.Item, r *proto.Result) []proto.Issue {
 
 var F = &proto.Family{ID: "C10", Gen: gen, Bound: func(tier string) int {
 	if tier == "thorough" {
-		return 2
+		return 3
 	}
-	return 1
+	return 2
 }}
 
 // ---- whole requests: nothing started on behalf of a request outlives the call -------------------------------
